@@ -213,6 +213,7 @@ def run(rep, tier, seed):
         dict(name="zeroth_shape_mat", D=2, P=1, pool="PoolMat", acts="ActsShape", idx="IdxMat", rs="RsCat", maxlen=1, maxobjs=6),
         dict(name="zeroth_shape_3d", D=2, P=2, pool="Pool3D", acts="ActsShape", idx="IdxMat", rs="RsCat", maxlen=1, maxobjs=6),
         dict(name="zeroth_scal", D=3, P=2, pool="PoolScal", acts="ActsAll", idx="IdxVec", rs="RsCat", maxlen=1, maxobjs=6),
+        dict(name="zeroth_complex_mix", module="MC_CUTPM", D=2, P=2, pool="PoolCx1", acts="ActsArith", scal="ScalCx", maxlen=1),
     ]
     U.relational_check(rep, configs, "zeroth", limit=lim)
     functions_zeroth(rep, seed)
